@@ -232,6 +232,48 @@ fn drive<B: Fld, H: ElementHasher<BaseField = B>>(run: &Run, hname: &str, cases:
                 }
             },
         }
+        // nonce aliasing: nonces that differ by a field modulus (so that they agree as field
+        // elements), only in their upper half, or in a single bit must still lead to different coins
+        {
+            const P62: u64 = 4611624995532046337;
+            const P64: u64 = 18446744069414584321;
+            let a = match rng.below(5) {
+                0 => 0,
+                1 => 1,
+                2 => rng.u64() >> 33,
+                3 => rng.u64() % P62,
+                _ => rng.u64(),
+            };
+            let (b, how) = match rng.below(7) {
+                0 => (a.wrapping_add(P62), "plus-f62-modulus"),
+                1 => (a.wrapping_add(P64), "plus-f64-modulus"),
+                2 => (a ^ (1 << 63), "top-bit"),
+                3 => (a ^ (1 << 32), "bit-32"),
+                4 => (a ^ (1u64 << rng.range(0, 63)), "single-bit"),
+                5 => (a.wrapping_add(P62.wrapping_mul(rng.range(1, 3) as u64)), "plus-multiple-of-f62-modulus"),
+                _ => (a.wrapping_sub(P64), "minus-f64-modulus"),
+            };
+            if a != b {
+                let d = 1usize << rng.range(8, 32);
+                let mut oa = ops.clone();
+                oa.push(Op::Ints(4, d, a));
+                let mut ob = ops.clone();
+                ob.push(Op::Ints(4, d, b));
+                let (ra, rb) = (run_hist(&seed, &oa), run_hist(&seed, &ob));
+                if ra == rb && ra.is_some() {
+                    st.violation(format!("{tag}:difference-not-propagated:nonce-alias:{how}"), J::obj(vec![("nonce_a", J::s(a.to_string())), ("nonce_b", J::s(b.to_string())), ("seed_elements", J::i(seed.len()))]));
+                }
+                // the proof-of-work measure is taken on the digests merge_with_int(seed, nonce)
+                let da = H::merge_with_int(model.seed, a).as_bytes();
+                let db = H::merge_with_int(model.seed, b).as_bytes();
+                if da == db {
+                    st.violation(format!("{tag}:nonce-alias-same-pow-digest:{how}"), J::obj(vec![("nonce_a", J::s(a.to_string())), ("nonce_b", J::s(b.to_string()))]));
+                }
+                st.count(&format!("{tag}.nonce_alias_pairs"));
+                st.count(&format!("nonce_alias.{how}"));
+                st.evals += 1;
+            }
+        }
         // an extra draw at the end always changes the next draw
         let mut o3 = ops.clone();
         o3.push(Op::Draw(1));
